@@ -2,11 +2,12 @@
 From LNN Require Import Num Neuron Node Sx PropEngine PropRun Fol FolRun Quant.
 Open Scope Z_scope.
 
-(* (kind operand (free positions) fully_grounded world ...) *)
+(* (kind operand (free positions) fully_grounded world ...); fully_grounded: 1 = True, 0 = not passed (the default),
+   2 = False passed explicitly *)
 Definition dqobj (s : sx) : qobj :=
   match s with
   | L (kd :: op :: fr :: full :: w :: _) =>
-      QObj (match dz kd with 0 => QForall | _ => QExists end) (dnat op) (dlist dnat fr) (dbool full) (dbnd w)
+      QObj (match dz kd with 0 => QForall | _ => QExists end) (dnat op) (dlist dnat fr) (Z.eqb (dz full) 1) (dbnd w)
   | _ => QObj QForall 0 [] false unknown
   end.
 
@@ -53,6 +54,10 @@ Definition qrun_op (k : fkb) (qk : list qobj) (roots : list nat) (w : qworld_sta
           let w' := (fst r, setq (snd w) i st) in
           Some (w', L [eq_ (snd r); eqworld qk nb w'])
       end
+  | L [A 15; oi] =>     (* reset_bounds() of one base object *)
+      let i := dnat oi in
+      let w' := (set_tab (fst w) i (t_reset (ftab (fst w) i)), snd w) in
+      Some (w', L [eqworld qk nb w'])
   | L (A t :: _) =>
       if (Z.eqb t 1 || Z.eqb t 2 || Z.eqb t 8 || Z.eqb t 12)%bool then
         let r := frun_op k roots (fst w) op in
